@@ -27,9 +27,29 @@ def _fill_cov(out, pid, pf, bad):
     return cov
 
 
-def _report(out, pid, r, verdicts, known, confirmed, pf):
-    """classification shared with the other trace checks"""
+def _report(out, pid, r, verdicts, known, confirmed, pf, model_verdicts_fn=None):
+    """classification shared with the other trace checks.
+    model_verdicts_fn(path of a model trace) -> verdicts: when given, a listed deviation that shows up AFTER the
+    implementation has left the model is compared with what the model of the unchanged code does on the same history
+    (mrun modeltrace: the model runs the script on its own): only a deviation the unchanged code shows too is skipped,
+    any other is reported with the history as the failing input."""
     attributable, seen = set(), set()
+    model_set = [None]
+
+    def in_model(v):
+        if model_verdicts_fn is None:
+            return True
+        if model_set[0] is None:
+            mt = r.tracefile + ".model"
+            rc, mo = C.sh([C.MRUN, "modeltrace", r.tracefile], timeout=1800)
+            with open(mt, "w") as f:
+                f.write(mo)
+            try:
+                model_set[0] = set((m["case"], m["step"], m["signature"], m["text"]) for m in model_verdicts_fn(mt))
+            except Exception as e:       # a model trace that cannot be judged proves nothing either way
+                model_set[0] = set()
+                print("note: model trace could not be judged: %r" % (e,))
+        return (v["case"], v["step"], v["signature"], v["text"]) in model_set[0]
     # a command that never replied: classified from its shape, never as a correspondence break
     for sv in T.stalls(r):
         attributable.add(sv["case"])
@@ -45,7 +65,7 @@ def _report(out, pid, r, verdicts, known, confirmed, pf):
         if before and v["signature"] in known:
             confirmed.setdefault(v["signature"], v)
             continue
-        if not before and v["signature"] in known and v["step"] != md[0]:
+        if not before and v["signature"] in known and v["step"] != md[0] and in_model(v):
             continue
         attributable.add(v["case"])
         if v["signature"] in seen:
@@ -123,7 +143,13 @@ def run_c11(tier, seed, replay):
                 verdicts += P.judge_reopen(c, times[c["id"]])
             if len(samples) < 2 and cases:
                 samples.append([T.step_text(s["line"]) for s in cases[0]["steps"][:14]])
-            _report(out, pid, r, verdicts, known, confirmed, pf)
+            def model_verdicts(path):
+                mv = []
+                mtimes = P.parse_times(path)
+                for mc in J.parse_trace(path):
+                    mv += P.judge_reopen(mc, mtimes[mc["id"]])
+                return mv
+            _report(out, pid, r, verdicts, known, confirmed, pf, model_verdicts_fn=model_verdicts)
         for sig in sorted(confirmed):
             out.known_confirmed.append(known[sig])
         cov["evaluations"] = stats["steps_vs_model"]
